@@ -163,6 +163,15 @@ def getattr_(interp: Interp, st: St, obj: V, name: str):
                 yield st, ("ok", h.attrs[name])
                 return
             if hasattr(h.cls, name):
+                import inspect as _inspect
+                import types as _types
+                static = _inspect.getattr_static(h.cls, name)
+                if isinstance(static, _types.FunctionType):
+                    yield st, ("ok", V("bound", (obj, name)))
+                    return
+                if not isinstance(static, (property, staticmethod, classmethod)) and not hasattr(static, "__get__"):
+                    yield st, ("ok", const(static))
+                    return
                 raise Unsupported(f"class attribute {name} on heap instance")
             yield st, (RAISE, interp.make_exception(st, AttributeError, []))
             return
@@ -375,10 +384,21 @@ def m_extend(interp, st, selfv, args, kwargs):
         yield s, ("ok", const(None))
 
 
+@handler(("$method", "items"))
+def m_items(interp, st, selfv, args, kwargs):
+    v = V("sym", t=interp.ctx.fresh_val("items"))
+    v.tag = ("hdict_items", selfv.d)
+    yield st, ("ok", v)
+
+
 @handler(("$method", "get"))
 def m_get(interp, st, selfv, args, kwargs):
     h = st.heap[selfv.d]
     default = args[1] if len(args) > 1 else const(None)
+    if isinstance(h, HDict) and h.pairs is None:
+        kt = interp.term(st, args[0])
+        yield st, ("ok", V("sym", t=z3.If(z3.Select(h.has, kt), z3.Select(h.vals, kt), interp.term(st, default))))
+        return
     if isinstance(h, HDict) and h.pairs is not None and args[0].kind == "const" and \
             all(kk.kind == "const" for kk, _ in h.pairs):
         for kk, vv in h.pairs:
@@ -410,6 +430,38 @@ def iterate_concrete(interp, st, v: V):
                 yield from iterate_concrete(interp, s, r[1])
     else:
         raise Unsupported(f"iteration of statically unknown length over {v!r}")
+
+
+@handler("$unpack")
+def unpack_symbolic(interp, st, v: V, n):
+    if v.tag and v.tag[0] == "hdict_items":
+        h = st.heap[v.tag[1]]
+        if h.pairs is not None:
+            if len(h.pairs) != n:
+                yield st, (RAISE, interp.make_exception(st, ValueError, []))
+            else:
+                yield st, ("ok", [V("tuple", [k, vv]) for k, vv in h.pairs])
+            return
+        for s, eq in interp.fork_on(st, h.kn == n):
+            if not eq:
+                yield s, (RAISE, interp.make_exception(s, ValueError, []))
+                continue
+            hh = s.heap[v.tag[1]]
+            out = []
+            for i in range(n):
+                kt = z3.Select(hh.karr, i)
+                out.append(V("tuple", [V("sym", t=kt), V("sym", t=z3.Select(hh.vals, kt))]))
+            yield s, ("ok", out)
+        return
+    if v.kind == "sym" and v.shadow is None:
+        # a symbolic pair / tuple value: component observers
+        t = interp.term(st, v)
+        interp.ctx.assume_note("a symbolic value that the code destructures is a tuple of the expected length")
+        st.assume(T.F_cls(t) == interp.reg.cls(tuple))
+        st.assume(T.F_len(t) == n)
+        yield st, ("ok", [V("sym", t=T.F_at(t, i)) for i in range(n)])
+        return
+    raise Unsupported(f"unpack of {v!r}")
 
 
 # ---------------------------------------------------------------------------------------------- comparison
@@ -971,4 +1023,29 @@ def call_const_symbolic(interp: Interp, st: St, o, args, kwargs):
         v.tag = ("fresh_container",)
         yield st, ("ok", v)
         return
+    if isinstance(o, type):
+        init = o.__dict__.get("__init__") or getattr(o, "__init__", None)
+        rc = interp.resolve_repo_callable(init) if init is not None else None
+        import dataclasses as _dc
+        hid = new_id()
+        if rc is not None:
+            st.heap[hid] = HObj(o, {}, fresh=True)
+            selfv = V("ref", hid)
+            for s, r in interp.call_closure(st, rc[0], [selfv] + list(args), kwargs):
+                if r[0] != "ok":
+                    yield s, r
+                else:
+                    yield s, ("ok", selfv)
+            return
+        if _dc.is_dataclass(o):
+            import inspect as _inspect
+            try:
+                ba = _inspect.signature(o).bind(*args, **kwargs)
+            except TypeError as e:
+                yield st, (RAISE, interp.exc_from_instance(st, e))
+                return
+            interp.ctx.assume_note("dataclass-generated __init__ stores its arguments in the fields of the same name")
+            st.heap[hid] = HObj(o, dict(ba.arguments), fresh=True)
+            yield st, ("ok", V("ref", hid))
+            return
     raise Unsupported(f"call of {o!r} on symbolic arguments")
